@@ -191,7 +191,7 @@ package engine
 //@   requires sockLive(s) && hbOK(s)
 //@   requires len(packets) > 0 ==> typeis(packets[0], *packet.Packet) && unbox(packets[0], *packet.Packet) != nil
 //@   modifies *
-//@   ensures [C02.l.packet] len(packets) > 0 ==> calls((*socket).onPacket) == 1 && arg((*socket).onPacket, 1, data) == unbox(packets[0], *packet.Packet)
+//@   ensures [C02.l.packet] len(packets) > 0 ==> calls((*socket).onPacket) == 1 && arg((*socket).onPacket, 1, data) == old(unbox(packets[0], *packet.Packet))
 //@   ensures [C02.l.nopacket] len(packets) == 0 ==> calls((*socket).onPacket) == 0
 //@ func (*socket).setTransport$5(arg0)
 //@   props C03
